@@ -151,12 +151,12 @@ PROPS = {
         explanation='(1) the HasChildren trait defaults append / insert_before / insert_after / delete, through which every DOM tree mutator goes: a refused call leaves child list and document-order vector unchanged, an unknown reference child is refused, an accepted child is in the list, a removed child loses its key; (2) character-data setters: insert_data, delete_data, replace_data, set_data, append_data on the three node kinds raise IndexSizeErr exactly for an offset past the end, never for a count running past the end, and leave the data unchanged whenever they return Err (atomic failure)',
     ),
     'C02': dict(
-        standin_ops=['info.char_from_char10', 'info.char_from_char16'],
+        standin_ops=['info.char_from_char10', 'info.char_from_char16', 'info.reject'],
         verus_units=['info_helpers'],
         level='proof',
         trusted_base=TRUSTED_VERUS,
         assumptions=[A1, A2 + ' (str::parse::<u32> / u32::from_str_radix behind an uninterpreted spec_parse; format! of the error payload unconstrained; char::from_u32 by assume_specification)', A6, A8],
-        not_decided='every grammar-level rejection listed by C02 (tags, attributes, comments, ]]>, undeclared entities, prolog order, PI targets): nom productions and Context::entity over the live document',
+        not_decided='every grammar-level rejection (the nom productions are outside both verifiers): the thorough tier samples them with a bounded grid of 42 ill-formed documents (info.reject: mismatched / unclosed / overlapping tags, duplicate attributes, illegal characters, names and character references, < and & in values and content, -- in comments, ]]> in text, undeclared entities, root-count errors, misplaced or malformed XML declarations, reserved PI targets), which proves nothing; not sampled: a < that enters content through an entity replacement text, namespace constraints',
         explanation='character-reference half of C02: info::char_from_char10/16 return Ok(c) only when the parsed number is c and c matches production [2] Char (WFC Legal Character), reject unparsable digits, accept every legal one; verified modularly against the contract of xmlchar::is_char, which is re-verified in the same unit',
     ),
     'C04': dict(
